@@ -89,6 +89,7 @@ type Run struct {
 	symNodes   []*Object
 	formats    map[[2]int]Str
 	jsonMarks  map[byte]*Object
+	initOK     map[*ssa.Package]bool
 
 	frame *Frame
 	depth int
